@@ -158,6 +158,18 @@ m('A36-large-chunk-loses-last-element', [(SL, '''            .saturating_add(n)
             .min(self.initial_len())''', '''            .saturating_add(n)
             .min(self.initial_len() - (n > 40 && self.initial_len() > 50) as usize)''')], ['C01', 'C03'], 'only for chunk sizes above 40 on sources longer than 50')
 m('A37-vec-take-one-wrong-beyond-32', [(VE, '''        let src_ptr = vec.as_mut_ptr().add(item_idx);''', '''        let src_ptr = vec.as_mut_ptr().add(if item_idx == 40 { 41.min(self.vec_len - 1) } else { item_idx });''')], ['C02', 'C08'], 'only position 40 of a vector')
+m('A38-unsynchronized-write-in-take-one', [(VE, '''    vec_len: usize,
+    counter: AtomicCounter,
+}''', '''    vec_len: usize,
+    last_taken: UnsafeCell<usize>,
+    counter: AtomicCounter,
+}'''), (VE, '''            vec: ManuallyDrop::new(vec).into(),
+            counter: AtomicCounter::new(),''', '''            vec: ManuallyDrop::new(vec).into(),
+            last_taken: 0.into(),
+            counter: AtomicCounter::new(),'''), (VE, '''        let vec = &mut *self.vec.get();
+        let src_ptr = vec.as_mut_ptr().add(item_idx);''', '''        let vec = &mut *self.vec.get();
+        *self.last_taken.get() = item_idx;
+        let src_ptr = vec.as_mut_ptr().add(item_idx);''')], ['C07'], 'a data race on non-atomic state for which engine A has no probe: caught by the Miri cross-check (engine B) of C07')
 # variants that must stay quiet (Appendix B)
 m('B01-all-seqcst', [(AC, 'Ordering::AcqRel)', 'Ordering::SeqCst)'), (AC, 'Ordering::AcqRel)', 'Ordering::SeqCst)'), (AC, 'Ordering::Acquire)', 'Ordering::SeqCst)'),
                      (IT, 'self.completed.load(atomic::Ordering::Relaxed)', 'self.completed.load(atomic::Ordering::SeqCst)')], [], 'quiet')
